@@ -56,25 +56,93 @@ REQUIRED = {'quiescent_points': 1000, 'placed_tasks_checked': 300,
 
 
 def nodelist_restore(rng, res):
+    """application-level grants and releases on a NodeList: after every
+    release the node map must equal the initial map minus what is still held
+    (by what was asked for), and the initial map once everything is back"""
     cpn = rng.choice([1, 2, 4, 8]); gpn = rng.choice([0, 1, 2])
     nn  = rng.randint(1, 3)
-    nodes = [rp.Node({'index': i, 'name': 'n%d' % i,
-                      'cores': [rpc.FREE] * cpn, 'gpus': [rpc.FREE] * gpn,
-                      'lfs': 100, 'mem': 100}) for i in range(nn)]
-    nl = rp.NodeList(nodes=nodes); nl.verify()
-    init = [n.as_dict() for n in nl.nodes]
-    live, ops = list(), list()
+    numa = cpn >= 2 and rng.random() < 0.3
+    dmap = None
+    if numa:
+        h, g = cpn // 2, gpn // 2
+        dmap = {0: rp.NumaDomain(cores=list(range(0, h)),
+                                 gpus=list(range(0, g))),
+                1: rp.NumaDomain(cores=list(range(h, cpn)),
+                                 gpus=list(range(g, gpn)))}
+
+    def mknode(i):
+        d = {'index': i, 'name': 'n%d' % i,
+             'cores': [rpc.FREE] * cpn, 'gpus': [rpc.FREE] * gpn,
+             'lfs': 100, 'mem': 100}
+        return rp.NumaNode(d, dmap) if numa else rp.Node(d)
+
+    nl = rp.NodeList(nodes=[mknode(i) for i in range(nn)]); nl.verify()
+
+    def snapshot():
+        return [{'index': n.index,
+                 'cores': [round(c.occupation, 9) for c in n.cores],
+                 'gpus' : [round(x.occupation, 9) for x in n.gpus],
+                 'lfs'  : n.lfs, 'mem': n.mem} for n in nl.nodes]
+
+    init = snapshot()
+    live, ops = list(), list()      # live: [(rr, slots)]
+    case = {'cpn': cpn, 'gpn': gpn, 'nodes': nn, 'numa': numa, 'ops': ops}
+
+    def expected():
+        exp = [{'index': d['index'], 'cores': list(d['cores']),
+                'gpus': list(d['gpus']), 'lfs': d['lfs'], 'mem': d['mem']}
+               for d in init]
+        for rr, slots in live:
+            for sl in slots:
+                e = exp[sl.node_index]
+                for c in sl.cores:
+                    e['cores'][c.index] = round(e['cores'][c.index] +
+                                                rr.core_occupation, 9)
+                for x in sl.gpus:
+                    e['gpus'][x.index] = round(e['gpus'][x.index] +
+                                               rr.gpu_occupation, 9)
+                e['lfs'] -= rr.lfs
+                e['mem'] -= rr.mem
+        return exp
+
+    def compare(when):
+        now, exp = snapshot(), expected()
+        for a, b in zip(now, exp):
+            for key in ('cores', 'gpus', 'lfs', 'mem'):
+                if a[key] != b[key]:
+                    res.violation('nodelist-not-restored/%s' % key,
+                                  'node %s %s %s: %s, held resources say %s'
+                                  % (a['index'], key, when, a[key], b[key]),
+                                  case)
+                    return False
+        return True
+
+    def release(k):
+        # one call may hand back the slots of several grants
+        picked = [live.pop(rng.randrange(len(live)))
+                  for _ in range(min(k, len(live)))]
+        slots = [sl for _, ss in picked for sl in ss]
+        if len(picked) > 1:
+            rng.shuffle(slots)
+            res.count('nodelist_joint_releases')
+        ops.append(['release', len(picked)])
+        nl.release_slots(slots)
+        return compare('after release %d' % len(ops))
+
     for _ in range(rng.randint(3, 25)):
         if live and rng.random() < 0.45:
-            nl.release_slots(live.pop(rng.randrange(len(live))))
-            ops.append('release')
+            if not release(rng.choice([1, 1, 1, 2, 3])):
+                return case
             continue
         rr = rp.RankRequirements(n_cores=rng.randint(1, cpn),
+                                 core_occupation=rng.choice([1.0, 1.0, 0.5,
+                                                             0.25]),
                                  n_gpus=rng.randint(0, gpn),
                                  gpu_occupation=rng.choice([1.0, 0.5, 0.25, 0.3,
                                                             0.1, 0.2]),
-                                 lfs=rng.choice([0, 10, 40]),
-                                 mem=rng.choice([0, 10, 40]))
+                                 lfs=rng.choice([0, 10, 40, 50]),
+                                 mem=rng.choice([0, 10, 40, 50]),
+                                 numa=bool(numa and rng.random() < 0.6))
         n = rng.randint(1, 3)
         ops.append(['find', rr.as_dict(), n])
         try:
@@ -82,24 +150,13 @@ def nodelist_restore(rng, res):
         except (ValueError, RuntimeError):
             continue
         if slots:
-            live.append(slots)
-    rng.shuffle(live)
-    for slots in live:
-        nl.release_slots(slots)
+            live.append((rr, slots))
+            if rr.core_occupation < 1:
+                res.count('nodelist_shared_core_grants')
+    while live:
+        if not release(rng.choice([1, 1, 2, len(live)])):
+            return case
     res.count('nodelist_restorations')
-    now = [n.as_dict() for n in nl.nodes]
-    case = {'cpn': cpn, 'gpn': gpn, 'nodes': nn, 'ops': ops}
-    for a, b in zip(now, init):
-        for key in ('cores', 'gpus', 'lfs', 'mem'):
-            va, vb = a[key], b[key]
-            if key in ('cores', 'gpus'):
-                va = [round(x['occupation'], 9) for x in va]
-                vb = [round(x['occupation'], 9) for x in vb]
-            if va != vb:
-                res.violation('nodelist-not-restored/%s' % key,
-                              'node %s %s: %s, initially %s'
-                              % (a['index'], key, va, vb), case)
-                return case
     return case
 
 
